@@ -262,7 +262,7 @@ def wrapper_symmetry(ctx: Ctx) -> None:
     ok = any(isinstance(tgt, ast.Subscript) and unparse(tgt) == "wrappers[var.wrapper_qname]" and unparse(val) == "var.qname" for _, tgt, val in stores(b.node))
     ctx.ob("reader's wrappers map is keyed by var.wrapper_qname -> var.qname", ok, at=b, construct="wrappers map", msg="wrapper map built from another attribute than the one written")
     st = ctx.repo.func(f"{PAR}.bases:NodeParser.start")
-    ctx.ob("NodeParser.start consults meta.wrappers before delegating to child()", A("_ in _.meta.wrappers") in asrc(st) and A("WrapperNode(parent=_, qname=_)") in asrc(st), at=st,
+    ctx.ob("NodeParser.start consults meta.wrappers before delegating to child()", A("_ in _.meta.wrappers") in asrc(st) and A("WrapperNode(parent=_, qname=_, ns_map=_)") in asrc(st), at=st,
            construct="wrapper dispatch", msg="wrapper elements treated as unknown children")
     wn = ctx.repo.func(f"{PAR}.nodes.wrapper:WrapperNode.child")
     ctx.ob("WrapperNode.child delegates to the parent with wrapper=self.qname", A("return self.parent.child(_, _, _, _, wrapper=self.qname)") in asrc(wn), at=wn, construct="wrapper child",
